@@ -75,6 +75,46 @@ def rule_PL1(ctx, tier):
     rr = RuleResult("PL1", "every reply class of a tower ends in a durable record (accepted / pending / invalid / misbehaving proof)")
     P = ctx.prog
     b = P.require(HOOK)
+    # the hook is answered only once the handler is done: lightningd takes the answer as "handed over" and never notifies
+    # this revocation again, so an answer that precedes the durable record opens a window in which a kill loses it
+    handler = HOOK.rsplit("::{closure", 1)[0]
+    reg = []
+    for cb_ in P.bodies.values():
+        if cb_.id.startswith("watchtower_client::main"):
+            for bb_, t_ in cb_.calls():
+                if (call_target(t_) or "").endswith("Builder::<S, I, O>::hook"):
+                    reg.append((cb_, bb_))
+    if not reg:
+        rr.anchor_missing("Builder::hook registration in main")
+    for cb_, bb_ in reg:
+        cbk = arg_origin(ctx, cb_, bb_, 2)
+        if cbk == ("fn", handler) or (isinstance(cbk, tuple) and cbk and cbk[0] == "fn" and cbk[1] == handler):
+            rr.ok("hook registered with the handler itself (answered when the handler returns)", sample={"rule": "PL1", "hook callback": og.show(cbk)})
+            continue
+        okc = False
+        if isinstance(cbk, tuple) and cbk and cbk[0] == "closure" and cbk[1] in P.bodies:
+            for fid in P.family(cbk[1]):
+                fb = P.bodies[fid]
+                for hb_, ht in fb.calls():
+                    if call_target(ht) != handler:
+                        continue
+                    me = og.strip(ctx.og.operand(fb, {"m": ht["dest"]}))
+                    users = set()
+                    for ub, ut in fb.calls():
+                        if ub == hb_:
+                            continue
+                        for i in range(len(ut.get("args", []))):
+                            a = og.strip(arg_origin(ctx, fb, ub, i))
+                            if a == me or (isinstance(a, tuple) and me in list(og.walk(a))):
+                                users.add(call_target(ut) or "?")
+                    bad = {u for u in users if not u.endswith(("IntoFuture>::into_future", "Future>::poll", "Pin::<Ptr>::new_unchecked", "Future::poll", "get_context")) and u != handler + "::{closure#0}"}
+                    okc = bool(users) and not bad
+                    if bad:
+                        rr.fail("hook-answered-before-handler", "the commitment_revocation hook hands the handler's future to `%s` instead of awaiting it: the hook is answered before the appointment is recorded anywhere, and a kill in between loses it (lightningd does not notify it again)" % ", ".join(sorted(shortfn(u) for u in bad)), where=fb.line_of(hb_))
+        if okc:
+            rr.ok("hook closure awaits the handler before answering")
+        elif not (isinstance(cbk, tuple) and cbk and cbk[0] == "closure"):
+            rr.fail("hook-callback", "the commitment_revocation hook is registered with `%s`, not with on_commitment_revocation" % og.show(cbk)[:100], where=cb_.line_of(bb_))
     nexts = [bb for bb in b.rpo() if is_iter_next(b, bb) and "vec::IntoIter" in (call_target(b.term(bb)) or "")]
     if len(nexts) != 1:
         rr.fail("loop-shape", "expected exactly one per-tower loop in on_commitment_revocation (found %d)" % len(nexts), where=b.span)
